@@ -70,17 +70,19 @@ def main():
         with lock:
             return [list(e) for e in log]
 
-    hooks = {}
+    hooks = {"peers": [], "make_peer": lambda: Evaluator.create(run_proc, method=case["backend"], method_kwargs={
+        "num_workers": 1, "storage": storage, "search_id": evaluator._search_id, "run_function_kwargs": {"shared": (log, lock, case["plan"], cap, t00)}})}
     instrument(evaluator, emit, hooks)
-    table, late, tr = drive(case, evaluator, emit, snapshot, hooks)
+    table, late, tr, extra = drive(case, evaluator, emit, snapshot, hooks)
     njobs = len(storage.load_all_job_ids(evaluator._search_id))
-    ex = getattr(evaluator, "executor", None)
-    if ex is not None:
-        try:
-            ex.shutdown(wait=False, cancel_futures=True)
-        except TypeError:  # loky's executor
-            ex.shutdown(wait=False, kill_workers=True)
-    sys.stdout.write("\n@@RESULT@@" + json.dumps(dict(njobs=njobs, trace=tr, table=table, late=late)) + "\n")
+    for ev in [evaluator] + hooks["peers"]:
+        ex = getattr(ev, "executor", None)
+        if ex is not None:
+            try:
+                ex.shutdown(wait=False, cancel_futures=True)
+            except TypeError:  # loky's executor
+                ex.shutdown(wait=False, kill_workers=True)
+    sys.stdout.write("\n@@RESULT@@" + json.dumps(dict(njobs=njobs, trace=tr, table=table, late=late, extra=extra)) + "\n")
     sys.stdout.flush()
 
 
